@@ -137,30 +137,47 @@ Proof.
     unfold gk_match. rewrite Hg, Hk, !String.eqb_refl. cbn [andb]. apply mem_str_In. exact Hn.
 Qed.
 
+(* a revision lists each (group, kind) once / and each name once *)
+Fixpoint gk_unique (cs : list rck) : bool :=
+  match cs with
+  | [] => true
+  | ck :: cs' => negb (existsb (gk_match (ck_group ck) (ck_kind ck)) cs') && gk_unique cs'
+  end.
+
+Fixpoint simple_cs (cs : list rck) : bool :=
+  match cs with
+  | [] => true
+  | ck :: cs' => negb (existsb (gk_match (ck_group ck) (ck_kind ck)) cs') &&
+                 nodup_str (ck_names ck) && simple_cs cs'
+  end.
+
+Definition simple (r : revision) : bool := simple_cs (rev_children r).
+
 (* ------------------------------------------------------------------ *)
 (* claims_of_revision, unfolded into named steps                       *)
 (* ------------------------------------------------------------------ *)
 
 Definition dlist := list (string * string * string * json).
 
-Definition name_step (ds : dlist) (i : nat) (g kd : string) (a : nat * claims) (name : string) : nat * claims :=
-  let '(n, cla) := a in
+Definition name_step (ds : dlist) (i : nat) (g kd : string) (a : list string * claims) (name : string)
+  : list string * claims :=
+  let '(ns, cla) := a in
   match find_desired ds g kd name with
-  | None => (n, cla)
+  | None => (ns, cla)
   | Some _ =>
       match claimant cla (g, kd, name) with
-      | Some _ => (n, cla)
-      | None => (S n, set_claim cla (g, kd, name) i)
+      | Some _ => (ns, cla)
+      | None => (ns ++ [name], set_claim cla (g, kd, name) i)
       end
   end.
 
 Definition group_step (c : ccfg) (ds : dlist) (i : nat) (acc : list rck * claims) (ck : rck) : list rck * claims :=
   let '(gs, cl0) := acc in
   if negb (is_rolling c (ck_group ck) (ck_kind ck)) then (gs, cl0) else
-  let '(kept, cl1) := fold_left (name_step ds i (ck_group ck) (ck_kind ck)) (ck_names ck) (O, cl0) in
+  let '(kept, cl1) := fold_left (name_step ds i (ck_group ck) (ck_kind ck)) (ck_names ck) ([], cl0) in
   match kept with
-  | O => (gs, cl1)
-  | _ => (gs ++ [ck], cl1)
+  | [] => (gs, cl1)
+  | _ => (gs ++ [mkRck (ck_group ck) (ck_kind ck) kept], cl1)
   end.
 
 Lemma claims_of_revision_eq c ds i r cl :
@@ -169,70 +186,91 @@ Lemma claims_of_revision_eq c ds i r cl :
   (mkRevision (rev_obj r) (rev_patch r) groups, cl').
 Proof. reflexivity. Qed.
 
-(* what one pass over the names of a group establishes *)
+Lemma mem_str_false_notin n l : mem_str n l = false <-> ~ In n l.
+Proof.
+  rewrite <- mem_str_In. destruct (mem_str n l).
+  - split; [discriminate|intros H; exfalso; apply H; reflexivity].
+  - split; [intros _ H; discriminate|reflexivity].
+Qed.
+
+(* what one pass over the names of a group establishes: the names kept are exactly the
+   names newly claimed, in order *)
 Record names_ok (ds : dlist) (i : nat) (g kd : string) (names : list string)
-       (n0 : nat) (cl0 : claims) (n1 : nat) (cl1 : claims) : Prop := {
+       (ns0 : list string) (cl0 : claims) (ns1 : list string) (cl1 : claims) : Prop := {
   no_mono : forall k j, claimant cl0 k = Some j -> claimant cl1 k = Some j;
-  no_new : forall k j, claimant cl1 k = Some j ->
-             claimant cl0 k = Some j \/
-             (claimant cl0 k = None /\ j = i /\ n0 < n1 /\ exists name, In name names /\ k = (g, kd, name));
-  no_complete : forall name, In name names -> find_desired ds g kd name <> None ->
-                  claimant cl1 (g, kd, name) <> None;
-  no_count : n0 <= n1;
+  no_added : exists added, ns1 = ns0 ++ added /\ nodup_str added = true /\
+      (forall n, In n added -> In n names /\ find_desired ds g kd n <> None /\
+                               claimant cl0 (g, kd, n) = None /\ claimant cl1 (g, kd, n) = Some i) /\
+      (forall k j, claimant cl1 k = Some j ->
+         claimant cl0 k = Some j \/
+         (claimant cl0 k = None /\ j = i /\ exists n, In n added /\ k = (g, kd, n)));
   no_nodup : NoDup (map fst cl0) -> NoDup (map fst cl1)
 }.
 
-Lemma names_fold_ok ds i g kd names : forall n0 cl0 n1 cl1,
-  fold_left (name_step ds i g kd) names (n0, cl0) = (n1, cl1) ->
-  names_ok ds i g kd names n0 cl0 n1 cl1.
+Lemma names_fold_ok ds i g kd names : forall ns0 cl0 ns1 cl1,
+  fold_left (name_step ds i g kd) names (ns0, cl0) = (ns1, cl1) ->
+  names_ok ds i g kd names ns0 cl0 ns1 cl1.
 Proof.
-  induction names as [|name names IH]; intros n0 cl0 n1 cl1 Hf; cbn [fold_left] in Hf.
-  - injection Hf as <- <-. constructor; auto; try (intros name []).
-  - destruct (name_step ds i g kd (n0, cl0) name) as [nm clm] eqn:Hs.
-    specialize (IH nm clm n1 cl1 Hf). destruct IH as [Im In_ Ic Icnt Ind].
+  induction names as [|name names IH]; intros ns0 cl0 ns1 cl1 Hf; cbn [fold_left] in Hf.
+  - injection Hf as <- <-. constructor; auto.
+    exists []. rewrite app_nil_r. split; [reflexivity|]. split; [reflexivity|]. split; [intros n []|].
+    intros k j Hk. left. exact Hk.
+  - destruct (name_step ds i g kd (ns0, cl0) name) as [nm clm] eqn:Hs.
+    specialize (IH nm clm ns1 cl1 Hf). destruct IH as [Im (added & Hadd & Hnd & Hin & Hnew) Ind].
     unfold name_step in Hs.
-    destruct (find_desired ds g kd name) as [d|] eqn:Hd.
-    + destruct (claimant cl0 (g, kd, name)) as [j0|] eqn:Hc0.
-      * injection Hs as <- <-. constructor; auto.
-        -- intros k j Hk. destruct (In_ k j Hk) as [H|(H1 & H2 & H3 & nm' & H4 & H5)]; [left; exact H|].
-           right. repeat split; auto. exists nm'. split; [right; exact H4|exact H5].
-        -- intros nm' [<-|Hin] Hdes; [|apply Ic; assumption].
-           rewrite (Im _ _ Hc0). discriminate.
-      * injection Hs as <- <-. constructor.
-        -- intros k j Hk. apply Im. destruct (ck_eqb (g, kd, name) k) eqn:E.
-           ++ apply ck_eqb_eq in E. subst k. congruence.
-           ++ rewrite claimant_set_other by exact E. exact Hk.
-        -- intros k j Hk. destruct (In_ k j Hk) as [H|(H1 & H2 & H3 & nm' & H4 & H5)].
-           ++ destruct (ck_eqb (g, kd, name) k) eqn:E.
-              ** apply ck_eqb_eq in E. subst k. rewrite claimant_set_same in H. injection H as <-.
-                 right. repeat split; auto; try lia. exists name. split; [now left|reflexivity].
-              ** rewrite claimant_set_other in H by exact E. left. exact H.
-           ++ destruct (ck_eqb (g, kd, name) k) eqn:E.
-              ** apply ck_eqb_eq in E. rewrite <- E in H1. rewrite claimant_set_same in H1. discriminate.
-              ** rewrite claimant_set_other in H1 by exact E. right. repeat split; auto; try lia.
-                 exists nm'. split; [right; exact H4|exact H5].
-        -- intros nm' [<-|Hin] Hdes; [|apply Ic; assumption].
-           rewrite (Im _ i (claimant_set_same cl0 (g, kd, name) i)). discriminate.
-        -- lia.
-        -- intros Hnd. apply Ind. apply set_claim_fresh_nodup; assumption.
-    + injection Hs as <- <-. constructor; auto.
-      * intros k j Hk. destruct (In_ k j Hk) as [H|(H1 & H2 & H3 & nm' & H4 & H5)]; [left; exact H|].
-        right. repeat split; auto. exists nm'. split; [right; exact H4|exact H5].
-      * intros nm' [<-|Hin] Hdes; [congruence|apply Ic; assumption].
+    assert (Hskip : (ns0, cl0) = (nm, clm) -> names_ok ds i g kd (name :: names) ns0 cl0 ns1 cl1).
+    { intros [= <- <-]. constructor; auto.
+      exists added. split; [exact Hadd|]. split; [exact Hnd|]. split; [|exact Hnew].
+      intros n Hn. destruct (Hin n Hn) as (H1 & H2 & H3 & H4). repeat split; auto. now right. }
+    destruct (find_desired ds g kd name) as [d|] eqn:Hd; [|auto].
+    destruct (claimant cl0 (g, kd, name)) as [j0|] eqn:Hc0; [auto|].
+    injection Hs as <- <-. clear Hskip.
+    assert (Hset : claimant (set_claim cl0 (g, kd, name) i) (g, kd, name) = Some i) by apply claimant_set_same.
+    constructor.
+    + intros k j Hk. apply Im. destruct (ck_eqb (g, kd, name) k) eqn:E.
+      * apply ck_eqb_eq in E. subst k. congruence.
+      * rewrite claimant_set_other by exact E. exact Hk.
+    + exists (name :: added). split; [rewrite Hadd, <- app_assoc; reflexivity|]. split; [|split].
+      * cbn [nodup_str]. rewrite Hnd, Bool.andb_true_r. apply Bool.negb_true_iff.
+        apply mem_str_false_notin. intros Hn. destruct (Hin name Hn) as (_ & _ & H3 & _). congruence.
+      * intros n [<-|Hn].
+        -- split; [now left|]. split; [congruence|]. split; [exact Hc0|]. apply Im. exact Hset.
+        -- destruct (Hin n Hn) as (H1 & H2 & H3 & H4). split; [now right|]. split; [exact H2|]. split; [|exact H4].
+           destruct (claimant cl0 (g, kd, n)) as [j|] eqn:E; [|reflexivity].
+           destruct (ck_eqb (g, kd, name) (g, kd, n)) eqn:E2.
+           ++ apply ck_eqb_eq in E2. rewrite <- E2 in H3. congruence.
+           ++ rewrite claimant_set_other in H3 by exact E2. congruence.
+      * intros k j Hk. destruct (Hnew k j Hk) as [H|(H1 & H2 & n & H3 & H4)].
+        -- destruct (ck_eqb (g, kd, name) k) eqn:E.
+           ++ apply ck_eqb_eq in E. subst k. rewrite Hset in H. injection H as <-.
+              right. split; [exact Hc0|]. split; [reflexivity|]. exists name. split; [now left|reflexivity].
+           ++ rewrite claimant_set_other in H by exact E. left. exact H.
+        -- destruct (ck_eqb (g, kd, name) k) eqn:E.
+           ++ apply ck_eqb_eq in E. rewrite <- E in H1. congruence.
+           ++ rewrite claimant_set_other in H1 by exact E. right. split; [exact H1|]. split; [exact H2|].
+              exists n. split; [now right|exact H4].
+    + intros Hnd0. apply Ind. apply set_claim_fresh_nodup; assumption.
 Qed.
 
 (* what one pass over the groups of a revision establishes *)
 Record groups_ok (c : ccfg) (ds : dlist) (i : nat) (cs : list rck)
        (gs0 : list rck) (cl0 : claims) (gs1 : list rck) (cl1 : claims) : Prop := {
   go_mono : forall k j, claimant cl0 k = Some j -> claimant cl1 k = Some j;
-  go_new : forall k j, claimant cl1 k = Some j ->
-             claimant cl0 k = Some j \/ (claimant cl0 k = None /\ j = i /\ lists_cs gs1 k = true);
   go_kept : exists add, gs1 = gs0 ++ add /\
-              (forall ck, In ck add -> In ck cs /\ is_rolling c (ck_group ck) (ck_kind ck) = true) /\
-              (forall g kd n, lists_cs add (g, kd, n) = true -> find_desired ds g kd n <> None ->
-                              claimant cl1 (g, kd, n) <> None);
+      (forall g kd n, lists_cs add (g, kd, n) = true ->
+         is_rolling c g kd = true /\ find_desired ds g kd n <> None /\
+         claimant cl0 (g, kd, n) = None /\ claimant cl1 (g, kd, n) = Some i /\
+         lists_cs cs (g, kd, n) = true) /\
+      (forall k j, claimant cl1 k = Some j ->
+         claimant cl0 k = Some j \/ (claimant cl0 k = None /\ j = i /\ lists_cs add k = true)) /\
+      (forall g kd, existsb (gk_match g kd) add = true -> existsb (gk_match g kd) cs = true) /\
+      (gk_unique cs = true -> simple_cs add = true);
   go_nodup : NoDup (map fst cl0) -> NoDup (map fst cl1)
 }.
+
+Lemma claimant_none_back (cl0 cl1 : claims) k :
+  (forall j, claimant cl0 k = Some j -> claimant cl1 k = Some j) -> claimant cl1 k = None -> claimant cl0 k = None.
+Proof. intros Hm H1. destruct (claimant cl0 k) as [j|] eqn:E; [|reflexivity]. rewrite (Hm j eq_refl) in H1. discriminate. Qed.
 
 Lemma groups_fold_ok c ds i cs : forall gs0 cl0 gs1 cl1,
   fold_left (group_step c ds i) cs (gs0, cl0) = (gs1, cl1) ->
@@ -240,47 +278,66 @@ Lemma groups_fold_ok c ds i cs : forall gs0 cl0 gs1 cl1,
 Proof.
   induction cs as [|ck cs IH]; intros gs0 cl0 gs1 cl1 Hf; cbn [fold_left] in Hf.
   - injection Hf as <- <-. constructor; auto.
-    exists []. rewrite app_nil_r. split; [reflexivity|]. split; [intros ck []|].
-    intros g kd n H. discriminate.
+    exists []. rewrite app_nil_r. split; [reflexivity|]. split; [intros g kd n H; discriminate|].
+    split; [intros k j Hk; left; exact Hk|]. split; [intros g kd H; discriminate|reflexivity].
   - destruct (group_step c ds i (gs0, cl0) ck) as [gsm clm] eqn:Hs.
-    specialize (IH gsm clm gs1 cl1 Hf). destruct IH as [Im In_ (add & Hadd & Hsub & Hcomp) Ind].
+    specialize (IH gsm clm gs1 cl1 Hf).
+    destruct IH as [Im (add & Hadd & Hlst & Hnew & Hgk & Hsim) Ind].
     unfold group_step in Hs.
     destruct (negb (is_rolling c (ck_group ck) (ck_kind ck))) eqn:Hroll.
     + injection Hs as <- <-. constructor; auto.
-      exists add. split; [exact Hadd|]. split; [|exact Hcomp].
-      intros ck' Hin. destruct (Hsub ck' Hin) as [H1 H2]. split; [right; exact H1|exact H2].
+      exists add. split; [exact Hadd|]. split; [|split; [exact Hnew|split]].
+      * intros g kd n Hl. destruct (Hlst g kd n Hl) as (H1 & H2 & H3 & H4 & H5).
+        repeat split; auto. rewrite (lists_cs_app [ck] cs). rewrite H5. apply Bool.orb_true_r.
+      * intros g kd H. cbn [existsb]. rewrite (Hgk g kd H). apply Bool.orb_true_r.
+      * cbn [gk_unique]. intros H. apply Bool.andb_true_iff in H. apply Hsim, H.
     + apply Bool.negb_false_iff in Hroll.
-      destruct (fold_left (name_step ds i (ck_group ck) (ck_kind ck)) (ck_names ck) (0, cl0)) as [kept cl1'] eqn:Hn.
-      apply names_fold_ok in Hn. destruct Hn as [Nm Nn Nc Ncnt Nnd].
-      assert (Hgsm : gsm = gs0 ++ (if Nat.eqb kept 0 then [] else [ck]) /\ clm = cl1').
-      { destruct kept; injection Hs as <- <-; cbn [Nat.eqb]; [rewrite app_nil_r|]; auto. }
+      destruct (fold_left (name_step ds i (ck_group ck) (ck_kind ck)) (ck_names ck) ([], cl0)) as [kept cl1'] eqn:Hn.
+      apply names_fold_ok in Hn. destruct Hn as [Nm (added & Hk & Nnd & Nin & Nnew) Nnodup].
+      cbn [app] in Hk. subst added.
+      set (new := mkRck (ck_group ck) (ck_kind ck) kept) in *.
+      set (hd := match kept with [] => [] | _ => [new] end).
+      assert (Hgsm : gsm = gs0 ++ hd /\ clm = cl1').
+      { unfold hd. destruct kept; injection Hs as <- <-; [rewrite app_nil_r|]; auto. }
       destruct Hgsm as [-> ->]. clear Hs.
+      assert (Hhd : forall g kd n, lists_cs hd (g, kd, n) = true ->
+                      g = ck_group ck /\ kd = ck_kind ck /\ In n kept).
+      { intros g kd n Hl. unfold hd in Hl. destruct kept as [|x kept']; [discriminate|].
+        apply lists_cs_spec in Hl. destruct Hl as (ck' & [<-|[]] & Hg & Hkd & Hn'). cbn in Hg, Hkd, Hn'. auto. }
+      assert (Hhd' : forall n, In n kept -> lists_cs hd (ck_group ck, ck_kind ck, n) = true).
+      { intros n Hn'. unfold hd. destruct kept as [|x kept']; [destruct Hn'|].
+        apply lists_cs_spec. exists new. split; [now left|]. repeat split; auto. }
       constructor.
       * intros k j Hk. apply Im, Nm, Hk.
-      * intros k j Hk. destruct (In_ k j Hk) as [H|H]; [|right].
-        -- destruct (Nn k j H) as [H'|(H1 & H2 & H3 & nm & H4 & H5)]; [left; exact H'|].
-           right. split; [exact H1|]. split; [exact H2|].
-           rewrite Hadd. destruct kept; [lia|]. cbn [Nat.eqb].
-           rewrite !lists_cs_app. subst k.
-           assert (Hl : lists_cs [ck] (ck_group ck, ck_kind ck, nm) = true).
-           { apply lists_cs_spec. exists ck. repeat split; auto. now left. }
-           rewrite Hl. rewrite Bool.orb_true_r. reflexivity.
-        -- destruct H as (H1 & H2 & H3). split; [|split; assumption].
-           destruct (claimant cl0 k) as [j0|] eqn:Hc0; [|reflexivity].
-           rewrite (Nm _ _ Hc0) in H1. discriminate.
-      * exists ((if Nat.eqb kept 0 then [] else [ck]) ++ add). split; [rewrite Hadd, app_assoc; reflexivity|].
-        split.
-        -- intros ck' Hin. apply in_app_or in Hin. destruct Hin as [Hin|Hin].
-           ++ destruct (Nat.eqb kept 0); [destruct Hin|]. destruct Hin as [<-|[]]. split; [now left|exact Hroll].
-           ++ destruct (Hsub ck' Hin) as [H1 H2]. split; [right; exact H1|exact H2].
-        -- intros g kd n Hl Hdes. rewrite lists_cs_app in Hl. apply Bool.orb_true_iff in Hl.
-           destruct Hl as [Hl|Hl]; [|apply Hcomp; assumption].
-           destruct (Nat.eqb kept 0); [discriminate|].
-           apply lists_cs_spec in Hl. destruct Hl as (ck' & [<-|[]] & <- & <- & Hn').
-           specialize (Nc n Hn' Hdes).
-           destruct (claimant cl1' (ck_group ck, ck_kind ck, n)) as [j|] eqn:Hc; [|congruence].
-           rewrite (Im _ _ Hc). discriminate.
-      * intros Hnd. apply Ind, Nnd, Hnd.
+      * exists (hd ++ add). split; [rewrite Hadd, app_assoc; reflexivity|]. split; [|split; [|split]].
+        -- intros g kd n Hl. rewrite lists_cs_app in Hl. apply Bool.orb_true_iff in Hl. destruct Hl as [Hl|Hl].
+           ++ destruct (Hhd g kd n Hl) as (-> & -> & Hn').
+              destruct (Nin n Hn') as (H1 & H2 & H3 & H4).
+              split; [exact Hroll|]. split; [exact H2|]. split; [exact H3|]. split; [apply Im; exact H4|].
+              rewrite (lists_cs_app [ck] cs).
+              replace (lists_cs [ck] (ck_group ck, ck_kind ck, n)) with true; [reflexivity|].
+              symmetry. apply lists_cs_spec. exists ck. split; [now left|]. auto.
+           ++ destruct (Hlst g kd n Hl) as (H1 & H2 & H3 & H4 & H5).
+              split; [exact H1|]. split; [exact H2|]. split; [|split; [exact H4|]].
+              ** apply (claimant_none_back cl0 cl1'); [intros j; apply Nm|exact H3].
+              ** rewrite (lists_cs_app [ck] cs). rewrite H5. apply Bool.orb_true_r.
+        -- intros k j Hk. destruct (Hnew k j Hk) as [H|(H1 & H2 & H3)].
+           ++ destruct (Nnew k j H) as [H'|(H1 & H2 & n & H3 & H4)]; [left; exact H'|].
+              right. split; [exact H1|]. split; [exact H2|]. subst k.
+              rewrite lists_cs_app, (Hhd' n H3). reflexivity.
+           ++ right. split; [apply (claimant_none_back cl0 cl1'); [intros j'; apply Nm|exact H1]|].
+              split; [exact H2|]. rewrite lists_cs_app, H3. apply Bool.orb_true_r.
+        -- intros g kd H. rewrite existsb_app in H. cbn [existsb]. apply Bool.orb_true_iff in H.
+           destruct H as [H|H]; [|rewrite (Hgk g kd H); apply Bool.orb_true_r].
+           unfold hd in H. destruct kept; [discriminate|]. cbn [existsb] in H. rewrite Bool.orb_false_r in H.
+           unfold gk_match in H |- *. cbn [ck_group ck_kind new] in H. rewrite H. reflexivity.
+        -- cbn [gk_unique]. intros H. apply Bool.andb_true_iff in H. destruct H as [H1 H2].
+           specialize (Hsim H2). unfold hd. destruct kept as [|x kept'] eqn:Ek; [exact Hsim|].
+           cbn [app simple_cs]. rewrite Hsim, Bool.andb_true_r. cbn [new ck_group ck_kind ck_names].
+           rewrite Nnd, Bool.andb_true_r. apply Bool.negb_true_iff.
+           destruct (existsb (gk_match (ck_group ck) (ck_kind ck)) add) eqn:E; [|reflexivity].
+           apply Hgk in E. apply Bool.negb_true_iff in H1. congruence.
+      * intros Hnd. apply Ind, Nnodup, Hnd.
 Qed.
 
 (* ------------------------------------------------------------------ *)
@@ -292,15 +349,18 @@ Record rev_claims_ok (c : ccfg) (ds : dlist) (i : nat) (r : revision) (cl : clai
   rc_obj : rev_obj r' = rev_obj r /\ rev_patch r' = rev_patch r;
   (* an existing claimant is never changed *)
   rc_mono : forall k j, claimant cl k = Some j -> claimant cl' k = Some j;
-  (* a new claimant is this revision, and the revision still lists the key *)
+  (* a new claimant is this revision, and the revision lists the key *)
   rc_new : forall k j, claimant cl' k = Some j ->
              claimant cl k = Some j \/ (claimant cl k = None /\ j = i /\ lists r' k = true);
-  (* the groups kept are rolling groups of the original, unfiltered *)
-  rc_sub : forall ck, In ck (rev_children r') ->
-             In ck (rev_children r) /\ is_rolling c (ck_group ck) (ck_kind ck) = true;
-  (* every listed key that the latest revision desires has a claimant *)
-  rc_complete : forall g kd n, lists r' (g, kd, n) = true -> find_desired ds g kd n <> None ->
-                  claimant cl' (g, kd, n) <> None;
+  (* what the revision lists afterwards: rolling, desired by the latest revision, newly
+     claimed by this revision, and listed before *)
+  rc_listed : forall g kd n, lists r' (g, kd, n) = true ->
+                is_rolling c g kd = true /\ find_desired ds g kd n <> None /\
+                claimant cl (g, kd, n) = None /\ claimant cl' (g, kd, n) = Some i /\
+                lists r (g, kd, n) = true;
+  rc_gk : forall g kd, existsb (gk_match g kd) (rev_children r') = true ->
+                       existsb (gk_match g kd) (rev_children r) = true;
+  rc_simple : gk_unique (rev_children r) = true -> simple r' = true;
   rc_nodup : NoDup (map fst cl) -> NoDup (map fst cl')
 }.
 
@@ -309,7 +369,8 @@ Lemma claims_of_revision_ok c ds i r cl r' cl' :
 Proof.
   rewrite claims_of_revision_eq.
   destruct (fold_left (group_step c ds i) (rev_children r) ([], cl)) as [gs cl1] eqn:Hf.
-  intros [= <- <-]. apply groups_fold_ok in Hf. destruct Hf as [Gm Gn (add & Hadd & Hsub & Hcomp) Gnd].
+  intros [= <- <-]. apply groups_fold_ok in Hf.
+  destruct Hf as [Gm (add & Hadd & Hlst & Hnew & Hgk & Hsim) Gnd].
   cbn [app] in Hadd. subst add.
   constructor; auto.
 Qed.
@@ -326,16 +387,18 @@ Record sync_claims_ok (c : ccfg) (ds : dlist) (i : nat) (prs : list prev) (cl : 
                         pr_resp p' = pr_resp p /\ pr_desired p' = pr_desired p /\
                         rev_obj (pr_rev p') = rev_obj (pr_rev p) /\
                         rev_patch (pr_rev p') = rev_patch (pr_rev p) /\
-                        forall ck, In ck (rev_children (pr_rev p')) ->
-                                   In ck (rev_children (pr_rev p)) /\
-                                   is_rolling c (ck_group ck) (ck_kind ck) = true;
+                        (forall k, lists (pr_rev p') k = true -> lists (pr_rev p) k = true) /\
+                        (gk_unique (rev_children (pr_rev p)) = true -> simple (pr_rev p') = true);
   sc_mono : forall k j, claimant cl k = Some j -> claimant cl' k = Some j;
   sc_new : forall k j, claimant cl' k = Some j ->
              claimant cl k = Some j \/
              (claimant cl k = None /\ i <= j /\
               exists p', nth_error prs' (j - i) = Some p' /\ lists (pr_rev p') k = true);
-  sc_complete : forall p' g kd n, In p' prs' -> lists (pr_rev p') (g, kd, n) = true ->
-                  find_desired ds g kd n <> None -> claimant cl' (g, kd, n) <> None;
+  (* a listed key is rolling, desired by the latest revision, and claimed by exactly the
+     revision that lists it *)
+  sc_listed : forall m p' g kd n, nth_error prs' m = Some p' -> lists (pr_rev p') (g, kd, n) = true ->
+                is_rolling c g kd = true /\ find_desired ds g kd n <> None /\
+                claimant cl (g, kd, n) = None /\ claimant cl' (g, kd, n) = Some (i + m);
   sc_nodup : NoDup (map fst cl) -> NoDup (map fst cl')
 }.
 
@@ -344,33 +407,58 @@ Lemma sync_revision_claims_ok c ds prs : forall i cl prs' cl',
 Proof.
   induction prs as [|p rest IH]; intros i cl prs' cl' Hs; cbn [sync_revision_claims] in Hs.
   - injection Hs as <- <-. constructor; auto;
-      try (intros m p' H; destruct m; discriminate); try (intros p' g kd n []).
+      try (intros m p' H; destruct m; discriminate);
+      try (intros m p' g kd n H; destruct m; discriminate).
   - destruct (claims_of_revision c ds i (pr_rev p) cl) as [r1 cl1] eqn:Hc.
     destruct (sync_revision_claims c ds (S i) rest cl1) as [rest' cl2] eqn:Hr.
     injection Hs as <- <-.
-    apply claims_of_revision_ok in Hc. destruct Hc as [[Ro Rp] Rm Rn Rs Rc Rnd].
-    apply IH in Hr. destruct Hr as [Sl Ss Sm Sn Sc Snd].
+    apply claims_of_revision_ok in Hc. destruct Hc as [[Ro Rp] Rm Rn Rl Rg Rs Rnd].
+    apply IH in Hr. destruct Hr as [Sl Ss Sm Sn Sli Snd].
     constructor.
     + cbn [List.length]. rewrite Sl. reflexivity.
     + intros m p' Hm. destruct m as [|m]; cbn [nth_error] in Hm |- *.
       * injection Hm as <-. exists p. cbn [pr_parent pr_resp pr_desired pr_rev]. repeat split; auto.
-        apply Rs; assumption. apply Rs; assumption.
+        intros [[g kd] n] Hl. apply (Rl g kd n Hl).
       * apply Ss. exact Hm.
     + intros k j Hk. apply Sm, Rm, Hk.
     + intros k j Hk. destruct (Sn k j Hk) as [H|(H1 & H2 & p' & H3 & H4)].
       * destruct (Rn k j H) as [H'|(H1 & H2 & H3)]; [left; exact H'|].
         right. split; [exact H1|]. split; [lia|]. subst j. rewrite Nat.sub_diag. cbn [nth_error].
         eexists. split; [reflexivity|]. exact H3.
-      * right. split.
-        -- destruct (claimant cl k) as [j0|] eqn:Hc0; [|reflexivity]. rewrite (Rm _ _ Hc0) in H1. discriminate.
-        -- split; [lia|]. replace (j - i) with (S (j - S i)) by lia. cbn [nth_error]. eauto.
-    + intros p' g kd n [<-|Hin] Hl Hdes.
-      * cbn [pr_rev] in Hl. specialize (Rc g kd n Hl Hdes).
-        destruct (claimant cl1 (g, kd, n)) as [j|] eqn:Hc1; [|congruence].
-        rewrite (Sm _ _ Hc1). discriminate.
-      * eapply Sc; eauto.
+      * right. split; [apply (claimant_none_back cl cl1); [intros j'; apply Rm|exact H1]|].
+        split; [lia|]. replace (j - i) with (S (j - S i)) by lia. cbn [nth_error]. eauto.
+    + intros m p' g kd n Hm Hl. destruct m as [|m]; cbn [nth_error] in Hm.
+      * injection Hm as <-. cbn [pr_rev] in Hl. destruct (Rl g kd n Hl) as (H1 & H2 & H3 & H4 & _).
+        rewrite Nat.add_0_r. repeat split; auto.
+      * destruct (Sli m p' g kd n Hm Hl) as (H1 & H2 & H3 & H4).
+        split; [exact H1|]. split; [exact H2|]. split.
+        -- apply (claimant_none_back cl cl1); [intros j'; apply Rm|exact H3].
+        -- rewrite H4. f_equal. lia.
     + intros Hnd. apply Snd, Rnd, Hnd.
+Qed.
+
+(* the old completeness fact follows: a listed key has a claimant *)
+Lemma sc_complete c ds i prs cl prs' cl' :
+  sync_claims_ok c ds i prs cl prs' cl' ->
+  forall p' g kd n, In p' prs' -> lists (pr_rev p') (g, kd, n) = true ->
+    find_desired ds g kd n <> None -> claimant cl' (g, kd, n) <> None.
+Proof.
+  intros Hok p' g kd n Hin Hl _. apply In_nth_error in Hin. destruct Hin as [m Hm].
+  destruct (sc_listed _ _ _ _ _ _ _ Hok m p' g kd n Hm Hl) as (_ & _ & _ & H). congruence.
+Qed.
+
+(* two revisions of the result never list the same key *)
+Lemma sync_revision_claims_excl c ds i prs cl prs' cl' k a b pa pb :
+  sync_revision_claims c ds i prs cl = (prs', cl') ->
+  nth_error prs' a = Some pa -> nth_error prs' b = Some pb ->
+  lists (pr_rev pa) k = true -> lists (pr_rev pb) k = true -> a = b.
+Proof.
+  intros Hs Ha Hb La Lb. apply sync_revision_claims_ok in Hs. destruct k as [[g kd] n].
+  destruct (sc_listed _ _ _ _ _ _ _ Hs a pa g kd n Ha La) as (_ & _ & _ & H1).
+  destruct (sc_listed _ _ _ _ _ _ _ Hs b pb g kd n Hb Lb) as (_ & _ & _ & H2).
+  rewrite H1 in H2. injection H2 as H2. lia.
 Qed.
 
 Print Assumptions claims_of_revision_ok.
 Print Assumptions sync_revision_claims_ok.
+Print Assumptions sync_revision_claims_excl.
